@@ -10,7 +10,7 @@ class C10(common.SpecCheck):
     unit_fn = "units.c10:c10_unit"
     QUICK = {"nseeds": 8, "specs": 150, "round": 150, "budget": 0}
     TIEBREAKS = {"quick": 12, "thorough": 48}
-    rule = ("specs of all classes (S, O, A, K, T; metrics-mode specs once class M exists) driven through the public IR "
+    rule = ("specs of all classes (S, O, A, K, T in plain mode, M in metrics mode) driven through the public IR "
             "API (Program.add_einsum, FlowGraph(program, metrics, ['hoist']), get_graph, get_sorted). Layer 1: the order "
             "each real hash seed produces. Layer 2 (fault/schedule seam): teaal.ir.flow_graph.nx is replaced, in the unit "
             "only, by a proxy whose topological_sort is Kahn's algorithm picking among ready nodes with the unit's PRNG "
@@ -23,7 +23,7 @@ class C10(common.SpecCheck):
                    "compiler's own graph"]
 
     def gen(self, rng, k):
-        spec, meta = classes.gen_mixed(rng, [("S", 3), ("O", 5), ("A", 3), ("K", 2), ("T", 2)])
+        spec, meta = classes.gen_mixed(rng, [("S", 3), ("O", 5), ("A", 3), ("K", 2), ("T", 2), ("M", 4)])
         return spec, meta
 
     def inputs(self, rng, spec, meta):
@@ -45,7 +45,7 @@ class C10(common.SpecCheck):
         return False
 
     def judge(self, spec, meta, inputs, results):
-        vs = common.rejection_violations(results, must_accept=True, allowed=REJ)
+        vs = common.rejection_violations(results, must_accept=meta.get("class") != "M", allowed=REJ)
         for h, r in sorted(results.items()):
             if r["status"] != "ok" or vs:
                 continue
